@@ -749,15 +749,28 @@ Section TemplateProofs.
       pose proof (find_none _ _ E u Hin1) as Hf. cbn beta in Hf. rewrite Hu, text_eqb_refl in Hf. discriminate.
   Qed.
 
-  Theorem load_dir_order_free : forall (pi1 pi2 : list tmpl -> list tmpl) files base,
+  (* the pre-16ec2bc loader under its guard: names distinct case-insensitively *)
+  Theorem load_dir_old_order_free : forall (pi1 pi2 : list tmpl -> list tmpl) files base,
     perm_oracle pi1 -> perm_oracle pi2 -> NoDup (map key files) ->
-    forall k, tl_lookup k (load_dir lower pi1 files base) = tl_lookup k (load_dir lower pi2 files base).
+    forall k, tl_lookup k (load_dir_old lower pi1 files base) = tl_lookup k (load_dir_old lower pi2 files base).
   Proof.
-    intros pi1 pi2 files base H1 H2 Hn k. unfold load_dir.
+    intros pi1 pi2 files base H1 H2 Hn k. unfold load_dir_old.
     assert (Hn1 : NoDup (map key (pi1 files))) by (eapply Permutation_NoDup; [apply Permutation_map, Permutation_sym, H1|exact Hn]).
     assert (Hn2 : NoDup (map key (pi2 files))) by (eapply Permutation_NoDup; [apply Permutation_map, Permutation_sym, H2|exact Hn]).
     rewrite !tl_lookup_load by assumption.
     rewrite (find_key_perm (pi1 files) (pi2 files) k); [reflexivity| |exact Hn1].
     eapply perm_trans; [apply H1|apply Permutation_sym, H2].
+  Qed.
+
+  (* as the code is now: the listing is sorted by name first, so the whole lookup (names, contents AND dict order)
+     is a function of the set of files -- no condition on case *)
+  Theorem load_dir_order_free : forall (pi1 pi2 : list tmpl -> list tmpl) files base,
+    perm_oracle pi1 -> perm_oracle pi2 -> NoDup (map fst files) ->
+    load_dir lower pi1 files base = load_dir lower pi2 files base.
+  Proof.
+    intros pi1 pi2 files base H1 H2 Hn. unfold load_dir. f_equal. apply sort_perm_invariant.
+    - eapply perm_trans; [apply H1|apply Permutation_sym, H2].
+    - intros a b Ha Hb E. unfold tmpl_key in E. apply enc_text_inj in E.
+      eapply (NoDup_map_inj_on fst files Hn); try exact E; (eapply Permutation_in; [apply H1|]); assumption.
   Qed.
 End TemplateProofs.
